@@ -254,6 +254,14 @@ def auto_discharge(prog, cg, site):
                 return "D3: index = x % len"
         if x[0] == "call" and x[1] in ("llfree::bitfield::RowId::huge_idx", "llfree::lower::HugeId::child_idx"):
             return "D3: %s() = x %% const array length" % x[1].split("::")[-1]
+        # index produced by iterating lo..C with C <= constant array length
+        for y in T.walk(ix):
+            if y[0] == "call" and y[1].endswith("::next") and vl is not None:
+                for z in T.walk(y[2][0]):
+                    if z[0] == "agg" and z[1].startswith("adt:core::ops::range::Range::Range"):
+                        hi = T.const_val(T.strip_casts(z[2][1]))
+                        if hi is not None and hi <= vl and T.canon(ix) == T.canon(("f", ("as", y, "Some"), 0, None)):
+                            return "D3: index iterates a range ending at %d <= len %d" % (hi, vl)
         # index produced by iterating 0..len of the same slice
         for y in T.walk(ix):
             if y[0] == "call" and y[1].endswith("::next"):
